@@ -116,6 +116,8 @@ class EditGen:
         if rfiles:
             kinds += ['remove_file'] * 4 + ['rename_file'] * 2 + \
                 ['move_file'] * 2 + ['file_to_dir']
+            if 'install_found' in self.proj.features:
+                kinds += ['file_to_dir'] * 3
         if rdirs:
             kinds += ['remove_dir'] * 2 + ['rename_dir'] * 2
         absent = getattr(self.proj, 'absent_base', None) or \
@@ -209,6 +211,11 @@ class EditGen:
             return [['rename', f, new]], 'move_file'
         if k == 'file_to_dir':
             f = rng.choice(rfiles)
+            # where a search takes files and directories alike, the swap
+            # keeps the name among the matches
+            both = [x for x in rfiles if x.startswith('assets/')]
+            if both and rng.random() < 0.6:
+                f = rng.choice(both)
             ops = [['remove', f], ['mkdir', f]]
             if rng.random() < 0.5:
                 inner = '{}/{}.c'.format(f, self.fresh_name())
